@@ -27,7 +27,7 @@ TIE_A = ["Tables.export",
          "code:fuzzylite.exporter.FllExporter.input_variable", "code:fuzzylite.exporter.FllExporter.output_variable",
          "code:fuzzylite.exporter.FllExporter.rule_block", "code:fuzzylite.exporter.FllExporter.engine",
          # the import side of term parameters (theorems `code_*` in the block "Tie A: term parameters" of Props/C14.lean)
-         "code:fuzzylite.term.Term._parse", "code:fuzzylite.term.Triangle.configure", "code:fuzzylite.term.Trapezoid.configure",
+         "code:fuzzylite.library.to_float", "code:fuzzylite.term.Term._parse", "code:fuzzylite.term.Triangle.configure", "code:fuzzylite.term.Trapezoid.configure",
          "code:fuzzylite.term.Constant.configure", "code:fuzzylite.term.Linear.configure", "code:fuzzylite.term.Discrete.configure",
          "code:fuzzylite.term.Function.configure", "code:fuzzylite.operation.Operation.as_identifier",
          "code:fuzzylite.operation.Operation.strip_comments", "code:fuzzylite.operation.Operation.scale",
